@@ -36,7 +36,14 @@ def req(ch, path):
 def break_list(ch, hs, kind):
     """Make a list invalid in a way the *lazy* validation notices late."""
     hs = list(hs)
-    how = ch.pick(['dup-pseudo', 'forbidden-late', 'te-late', 'missing-pseudo', 'pseudo-late', 'unknown-pseudo'])
+    how = ch.pick(['dup-pseudo', 'forbidden-late', 'te-late', 'missing-pseudo', 'pseudo-late', 'unknown-pseudo',
+                   'unencodable'])
+    if how == 'unencodable':
+        # text that cannot be encoded as UTF-8 (a lone surrogate, e.g. from a surrogateescape decode), after a
+        # fresh field the encoder would add to its table first
+        hs.append((b'x-new-%d' % ch.int(0, 9), b'fresh-value-before-bad-text-%d' % ch.int(0, 99)))
+        hs.append(('x-bad-text', 'v\udcff'))
+        return hs, how
     if how == 'dup-pseudo':
         ps = [h for h in hs if h[0].startswith(b':')]
         hs.insert(len(ps), ps[-1]) if ps else hs.append((b':foo', b'x'))
@@ -153,13 +160,27 @@ def run_case(data):
                         kw = {'priority_weight': 0}
                 o = s.call('send_headers', sid, hs, **kw)
                 r.step('send_headers(bad:%s)' % how, sid, hs, kw, o.brief())
-                if o.ok:
+                if o.ok and how == 'unencodable':
+                    r.violate('C13:unencodable-text-accepted', repr(o.frames)[:200])
+                elif o.ok:
                     r.labels.add('bad-accepted:' + how)
                     check_ok(o, hs, how)
                     live.append(sid)
                 else:
                     check_raise(o, how)
                     raised_before = True
+                    if ch.bool():
+                        # the refused call never happened: the same block, repaired, goes out on the same stream
+                        good = [(b':status', b'200')] if kind == 'response' else req(ch, b'/retry')
+                        good = good + [ch.pick(SHARED)]
+                        o = s.call('send_headers', sid, good)
+                        r.step('send_headers (retry after refusal)', sid, good, o.brief())
+                        if o.ok:
+                            check_ok(o, good, 'retry')
+                            live.append(sid)
+                        else:
+                            r.violate('C13:valid-block-refused-after-refused-call:%s:%s' % (how, o.exc_name),
+                                      repr(o.exc))
             else:
                 o = s.call('send_headers', sid, hs)
                 r.step('send_headers', sid, hs, o.brief())
@@ -264,4 +285,20 @@ def _f14():
     return keys
 
 
-FINDINGS = {'F14-encoder-ahead-after-raising-call': _f14}
+def _f33():
+    """Header text that cannot be encoded, behind a fresh field; then a block that uses that field."""
+    keys = []
+    c = Solo(True)
+    c.start()
+    base = req(Chooser(b''), b'/a')
+    o = c.call('send_headers', 1, base + [(b'x-new', b'fresh-value-1'), ('x-bad-text', 'v\udcff')])
+    o2 = c.call('send_headers', 1, base + [(b'x-new', b'fresh-value-1'), (b'x-other', b'zzz')])
+    if o.ok or o.out:
+        keys.append('C13:unencodable-text-accepted')
+    elif not o2.ok or o2.frames[0].f.get('headers') is None:
+        keys.append('C13:block-undecodable-by-peer')
+    return keys
+
+
+FINDINGS = {'F14-encoder-ahead-after-raising-call': _f14,
+            'F33-unencodable-header-text-desynchronises-hpack': _f33}
